@@ -196,6 +196,11 @@ Proof.
   apply dpop_memb.
 Qed.
 
+Lemma rx_match_memb' : forall a m i, memb i (vals a) =
+  memb i (vals (snd (rx_match R2R ERR a m))) ||
+  match fst (rx_match R2R ERR a m) with Some e => Nat.eqb i e | None => false end.
+Proof. intros. apply rx_match_memb. Qed.
+
 Ltac wsn := repeat match goal with
   | E : nth_error ?l ?j = Some _, H : context[wl (set_nth ?j ?c ?l) ?i] |- _ => rewrite (wl_set_nth l j _ c i E) in H
   | E : nth_error ?l ?j = Some _ |- context[wl (set_nth ?j ?c ?l) ?i] => rewrite (wl_set_nth l j _ c i E)
@@ -203,10 +208,9 @@ Ltac wsn := repeat match goal with
   | E : nth_error ?l ?j = Some _ |- context[dn (set_nth ?j ?c ?l) ?i] => rewrite (dn_set_nth l j _ c i E)
   end.
 Ltac lst := repeat match goal with
-  | E : popitem ?l = Some (?e, ?l'), H : context[memb ?i (vals ?l)] |- _ => rewrite (popitem_memb l e l' E i) in H
+  | E : popitem ?l = Some (?e, ?l') |- _ => progress (rewrite (popitem_memb l e l' E) in * )
   | E : popitem ?l = None |- _ => apply popitem_none in E
-  | E : rx_match R2R ERR ?a ?m = (?o, ?a'), H : context[memb ?i (vals ?a)] |- _ =>
-      rewrite (rx_match_memb i a m) in H; rewrite E in H
+  | E : rx_match R2R ERR ?a ?m = _ |- _ => progress (rewrite (rx_match_memb' a m) in * ); rewrite E in *
   end.
 Ltac eqs := repeat match goal with
   | H : context[Nat.eqb ?a ?b] |- _ =>
